@@ -457,6 +457,9 @@ class PassWorld(World):
                     return self.call_fn(self.methods[(owners[0], m)][0], [recv] + args)
             if isinstance(recv, tuple) and recv and recv[0] == "V" and m in ("clone", "to_owned", "borrow", "as_ref", "as_mut", "deref") and not e["args"] and (recv[1], m) not in self.methods:
                 return recv
+            if isinstance(recv, tuple) and recv and recv[0] == "V" and (recv[1], m) in getattr(self, "method_stubs", {}):
+                args = [self.eval(a, env, uses) for a in e["args"]]
+                return self.method_stubs[(recv[1], m)](recv, args)
             if isinstance(recv, tuple) and recv and recv[0] == "V":
                 args = [self.eval(a, env, uses) for a in e["args"]]
                 ty = recv[1]
